@@ -5,7 +5,7 @@
    Case: type, bytes, number of ops, then per op: kind (1 set, 2 unset), path, sub type, sub bytes, impl err (0 nil,
    1 error, 3 panic), impl exist, impl bytes after the op, flags (bit 0: Value API, bit 1: all field steps declared). *)
 From Coq Require Import ZArith List Bool.
-From DG Require Import CaseFormat ProtoWireRef ThriftWire ThriftGeneric ThriftEdit ThriftEditBytes Check01.
+From DG Require Import CaseFormat ProtoWireRef ThriftWire ThriftGeneric ThriftEdit ThriftEditBytes Check01 Check04.
 Import ListNotations.
 Local Open Scope Z_scope.
 
@@ -52,6 +52,17 @@ Definition is_408 (t : Z) (cur : list Z) (p : list pstep) : bool :=
   | None => false
   end.
 
+(* verdict and whether the history goes on.  A Value-API insertion of a node whose type is not the declared one (witness: the
+   initial value v0, see Check04.declared_mismatch) is outside the API contract: the value stops conforming to its descriptor,
+   the Value API (declared types) and the byte model (wire types) legitimately part ways; the history ends there. *)
+Definition ends_403 (v0 : tval) (t : Z) (cur : list Z) (kind : Z) (p : list pstep) (st : Z) (sb : list Z) (flags : Z) : bool :=
+  (kind =? 1) && Z.testbit flags 0 &&
+  match decode_all st sb with
+  | Some x => declared_mismatch v0 p x &&
+              match set_by_path t cur p sb st with Some (_, false) => true | _ => false end
+  | None => false
+  end.
+
 Definition step_403 (idx t : Z) (cur : list Z) (kind : Z) (p : list pstep) (st : Z) (sb : list Z)
                     (err ex : Z) (res : list Z) (flags : Z) : verdict :=
   if is_nil p then VBad 94 [] else
@@ -89,7 +100,7 @@ Definition step_403 (idx t : Z) (cur : list Z) (kind : Z) (p : list pstep) (st :
    step and ends there (the walk of the next step would read declared lengths the bounds-checked skip rejects) *)
 Definition walkable (t : Z) (bs : list Z) : bool := match skip_go t bs with Some [] => true | _ => false end.
 
-Fixpoint run_403 (n : nat) (idx t : Z) (cur : list Z) (fs : list field) : verdict :=
+Fixpoint run_403 (v0 : tval) (n : nat) (idx t : Z) (cur : list Z) (fs : list field) : verdict :=
   match n with
   | O => match fs with [] => VOk | _ => VBad 97 [] end
   | S n' =>
@@ -97,9 +108,13 @@ Fixpoint run_403 (n : nat) (idx t : Z) (cur : list Z) (fs : list field) : verdic
     | FZ kind :: rest =>
       match parse_path rest with
       | Some (p, FZ st :: FB sb :: FZ err :: FZ ex :: FB res :: FZ flags :: rest') =>
+        let ends := ends_403 v0 t cur kind p st sb flags in
+        (* a code that REJECTS the out-of-contract insertion (error, buffer unchanged) is fine too: the history goes on *)
+        if ends && (err =? 1) && bytes_eqb res cur then run_403 v0 n' (idx + 1) t cur rest' else
+        let go_on := negb ends && walkable t res in
         match step_403 idx t cur kind p st sb err ex res flags with
-        | VOk => if walkable t res then run_403 n' (idx + 1) t res rest' else VOk
-        | VDrift c => if walkable t res then match run_403 n' (idx + 1) t res rest' with VOk => VDrift c | o => o end else VDrift c
+        | VOk => if go_on then run_403 v0 n' (idx + 1) t res rest' else VOk
+        | VDrift c => if go_on then match run_403 v0 n' (idx + 1) t res rest' with VOk => VDrift c | o => o end else VDrift c
         | o => o
         end
       | _ => VBad 96 []
@@ -115,7 +130,7 @@ Definition check_403 (fs : list field) : verdict :=
     match decode_all t bs with
     | None => VSkip
     | Some v => if negb (wf v) then VSkip else
-                if (nops <? 0) || (nops >? 1000) then VBad 99 [] else run_403 (Z.to_nat nops) 0 t bs rest
+                if (nops <? 0) || (nops >? 1000) then VBad 99 [] else run_403 v (Z.to_nat nops) 0 t bs rest
     end
   | _ => VBad 99 []
   end.
